@@ -717,6 +717,12 @@ def make_combo(name, gi, uhf, seed, acc):
     try:
         mol = build_molecule(name, gi, uhf, seed)
     except Exception as e:
+        if type(e).__name__ == "BasisNotFoundError":
+            # The installed PySCF has no CRENBL set for He, which Tangelo uses only to count atoms/electrons: any molecule
+            # containing He cannot be constructed here. That is an environment limitation at construction time, not a
+            # statement about qubit-Hamiltonian energies (C04): counted and skipped, see DESIGN.md section 7.
+            acc.count(f"skipped_unsupported_element[{name}]")
+            raise ConstructionFailed()
         acc.ev()
         acc.states += 1
         case = {"kind": "c04", "mol": name, "geom": gi, "uhf": uhf, "seed": seed, "label": "none", "frozen": None, "rot": "id"}
